@@ -9,7 +9,7 @@ import (
 	"verif/vkit"
 )
 
-var coll = vkit.NewCollector("C03", "TestPrograms", "generated concurrent programs: 2-8 goroutines x 3-12 operations drawn from the public surface except the configuration setters (publish, subscribe/unsubscribe/clear/clearAll/has/count over three event types of which two share a routing shard, Wait, Replay, ReplayWithUpcast, SubscribeWithReplay, RegisterUpcast(Func), ClearUpcasts(ForType), direct Append/Read/ReadStream/SaveOffset/LoadOffset on the memory, SQLite or durable-streams store, Materializer Apply/Replay/LastOffset, collection Get/All, RegisterCollection) on a bus with hooks, panic handler, store and observability; handlers, filters and hooks carry nested scripts (publish, subscribe, unsubscribe, clear, ...) bounded by a fuel counter; barrier start, drawn GOMAXPROCS and Gosched noise; binary built with the race detector. Oracle: the race detector's report file grows while the case runs (kept only if a frame of jilio/ebu is involved), an operation panics, or the program hangs for 60 s twice. Non-trivial = conflicting operation kinds were in flight together (in-flight counters) or a nested call from a handler/filter/hook executed.")
+var coll = vkit.NewCollector("C03", "TestPrograms", "generated concurrent programs: 2-8 goroutines x 3-12 operations drawn from the public surface except the configuration setters (publish, subscribe/unsubscribe/clear/clearAll/has/count over three event types of which two share a routing shard, Wait, Shutdown (as a goroutine's last operation), Replay, ReplayWithUpcast, SubscribeWithReplay, RegisterUpcast(Func), ClearUpcasts(ForType), direct Append/Read/ReadStream/SaveOffset/LoadOffset on the memory, SQLite or durable-streams store, Materializer Apply/Replay/LastOffset, collection Get/All, RegisterCollection) on a bus with hooks, panic handler, store and observability; handlers, filters and hooks carry nested scripts (publish, subscribe, unsubscribe, clear, ...) bounded by a fuel counter; barrier start, drawn GOMAXPROCS and Gosched noise; binary built with the race detector. Oracle: the race detector's report file grows while the case runs (kept only if a frame of jilio/ebu is involved), an operation panics, or the program hangs for 60 s twice. Non-trivial = conflicting operation kinds were in flight together (in-flight counters) or a nested call from a handler/filter/hook executed.")
 
 func TestMain(m *testing.M) { vkit.Main(m) }
 
